@@ -229,6 +229,7 @@ def relto_variants(origin):
     if _wire_len(origin) + 4 <= 255:
         out.append(("child", dns.name.Name((b"sub",) + tuple(origin.labels))))
     out.append(("unrelated", dns.name.Name((b"unrelated", b"zz", b""))))
+    out.append(("empty", dns.name.empty))   # falsy: `relativize_to or origin` falls back to origin
     return out
 
 
@@ -249,6 +250,20 @@ def relto_checks(ctx, c, rep, rdclass, rdtype, tname, text, origin):
                   f"from_text({tname}, {text!r}, origin={origin}, relativize_to={R}) raised {e!r}", rep)
             return False
         model_corr_fromtext(ctx, c, tname, text, origin, True, ra, R)
+        if label == "empty":
+            # the empty name is falsy: the documented default (relativize against origin) applies
+            try:
+                rdef = dns.rdata.from_text(rdclass, rdtype, text, origin=origin, relativize=True)
+            except dns.exception.DNSException:
+                rdef = None
+            same = (ra is None) == (rdef is None) and (ra is None or ra.to_text() == rdef.to_text())
+            ctx.count("relativize_to.checked(empty)")
+            if not same:
+                _fail(ctx, f"C05/relativize_to/empty-name-not-default/{tname}",
+                      f"{tname}: {text!r} with origin={origin}: relativize_to=<empty name> gives "
+                      f"{None if ra is None else ra.to_text()!r}, no relativize_to gives {None if rdef is None else rdef.to_text()!r}", rep)
+                return False
+            continue
         if ra is None:
             ctx.count("relativize_to.rejected")
             continue
@@ -273,6 +288,148 @@ def relto_checks(ctx, c, rep, rdclass, rdtype, tname, text, origin):
             _fail(ctx, f"C05/relativize_to/text-roundtrip-differs/{tname}",
                   f"{tname}: {text!r} read with origin={origin} relativize_to={R} prints {ta!r}, which read against {R} "
                   f"denotes {wc.hex()} instead of {wa.hex()}", rep)
+            return False
+    return True
+
+
+def to_text_route_checks(ctx, c, rep, tname, rd, st, style, text):
+    """`Rdata.to_text(origin, relativize, **kw)` builds the style from keywords: the same text as to_styled_text(style),
+    and the legacy `chunksize` keyword sets both chunk sizes.  False = a failure was reported."""
+    kw = dict(hex_chunk_size=style.hex_chunk_size, hex_chunk_separator=style.hex_chunk_separator,
+              base64_chunk_size=style.base64_chunk_size, base64_chunk_separator=style.base64_chunk_separator,
+              txt_is_utf8=style.txt_is_utf8)
+    try:
+        t_kw = rd.to_text(origin=style.origin, relativize=style.relativize, **kw)
+        t_pos = rd.to_text(style.origin, style.relativize)
+        t_ref = rd.to_styled_text(dns.rdata.RdataStyle(origin=style.origin, relativize=style.relativize))
+        k = style.base64_chunk_size
+        t_chunk = rd.to_text(origin=style.origin, relativize=style.relativize, chunksize=k)
+        t_chunk_ref = rd.to_styled_text(dns.rdata.RdataStyle(origin=style.origin, relativize=style.relativize,
+                                                            hex_chunk_size=k, base64_chunk_size=k))
+        t_style = rd.to_text(style=style)
+        t_def = rd.to_text(origin=style.origin)
+        t_def_ref = rd.to_styled_text(dns.rdata.RdataStyle(origin=style.origin, relativize=True))
+    except Exception as e:
+        _fail(ctx, f"C05/to_text/keyword-route-raises/{tname}/{type(e).__name__}",
+              f"{tname}: to_text keyword route raised {e!r} where to_styled_text gave {text!r}", rep)
+        return False
+    ctx.count("to_text.routes")
+    for label, got, want in (("keywords", t_kw, text), ("positional", t_pos, t_ref), ("chunksize", t_chunk, t_chunk_ref),
+                             ("style=", t_style, text), ("default-relativize", t_def, t_def_ref)):
+        if got != want:
+            _fail(ctx, f"C05/to_text/route-differs/{label}/{tname}",
+                  f"{tname}: to_text via {label} gives {got!r}, to_styled_text gives {want!r}", rep)
+            return False
+    return True
+
+
+def eol_checks(ctx, c, rep, rdclass, rdtype, tname, text, origin, rel, rd_ref):
+    """dns.rdata.from_text end-of-line handling: a trailing comment and parentheses change nothing; a surplus token
+    after a fixed-arity record is an error.  False = a failure was reported."""
+    try:
+        w_ref = rd_ref.to_wire(origin=origin if origin is not None else dns.name.root)
+    except dns.exception.DNSException:
+        return True
+    variants = [("comment", text + " ; a comment ( \" ", True), ("parens", "( " + text + "\n\t)", True),
+                ("parens-comment", "(\n" + text + " ; c\n ) ; d", True)]
+    if tname in MODEL and MODEL[tname][1] is None and tname != "CAA":
+        variants.append(("surplus-token", text + " surplus", False))
+        variants.append(("surplus-quoted", text + ' ""', False))
+    for label, t, accept in variants:
+        try:
+            r = dns.rdata.from_text(rdclass, rdtype, t, origin=origin, relativize=rel)
+        except dns.exception.DNSException:
+            r = None
+        except Exception as e:
+            _fail(ctx, f"C05/from_text/foreign-exception/{tname}/{type(e).__name__}", f"from_text({tname}, {t!r}) raised {e!r}", rep)
+            return False
+        model_corr_fromtext(ctx, c, tname, t, origin, rel, r)
+        ctx.count("eol." + label)
+        if accept:
+            same = False
+            if r is not None:
+                try:
+                    same = r.to_wire(origin=origin if origin is not None else dns.name.root) == w_ref
+                except dns.exception.DNSException:
+                    same = False
+            if not same:
+                _fail(ctx, f"C05/from_text/eol/{label}-changes-the-record/{tname}",
+                      f"{tname}: {t!r} gives {'an error' if r is None else repr(r.to_text())}, {text!r} gives {rd_ref.to_text()!r}", rep)
+                return False
+        elif r is not None:
+            _fail(ctx, f"C05/from_text/eol/{label}-accepted/{tname}",
+                  f"{tname}: {t!r} is accepted (as {r.to_text()!r}) although a token follows the complete record", rep)
+            return False
+    # the Tokenizer route (what the zone reader does): two records on consecutive lines of one tokenizer, default
+    # relativize argument; each call consumes exactly its own line
+    try:
+        tok = dns.tokenizer.Tokenizer(text + " ; first\n" + text + "\n")
+        r1 = dns.rdata.from_text(rdclass, rdtype, tok, origin, rel)
+        r2 = dns.rdata.from_text(rdclass, rdtype, tok, origin, rel)
+        end = tok.get().is_eof()
+        ws = [x.to_wire(origin=origin if origin is not None else dns.name.root) for x in (r1, r2)]
+        rdflt = dns.rdata.from_text(rdclass, rdtype, text, origin)
+        wdflt = dns.rdata.from_text(rdclass, rdtype, text, origin, True).to_text()
+    except dns.exception.DNSException as e:
+        _fail(ctx, f"C05/from_text/tokenizer-route-raises/{tname}", f"{tname}: two lines {text!r} through one Tokenizer: {e!r}", rep)
+        return False
+    ctx.count("eol.tokenizer-route")
+    if ws != [w_ref, w_ref] or not end:
+        _fail(ctx, f"C05/from_text/tokenizer-route-differs/{tname}",
+              f"{tname}: two lines {text!r} through one Tokenizer give {r1.to_text()!r}, {r2.to_text()!r}, at eof: {end}", rep)
+        return False
+    if rdflt.to_text() != wdflt:
+        _fail(ctx, f"C05/from_text/default-relativize-differs/{tname}",
+              f"{tname}: {text!r} origin={origin}: default relativize gives {rdflt.to_text()!r}, relativize=True {wdflt!r}", rep)
+        return False
+    return True
+
+
+def generic_variants(ctx, c, rep, rdclass, rdtype, tname, wire, origin, rel, rd_ref):
+    """RFC 3597 syntax around a correct `\\# n hex`: spellings that must give the same record, and texts whose
+    declared length disagrees with the data, which must be rejected.  False = a failure was reported."""
+    n, h = len(wire), wire.hex()
+    k = (len(h) // 4) * 2
+    good = [("upper", f"\\# {n} {h.upper()}"), ("split", f"\\# {n} {h[:k]} {h[k:]}" if n >= 2 else f"\\# {n} {h}"),
+            ("parens", f"\\# {n} ( {h[:k]}\n {h[k:]} ) ; c" if n >= 2 else f"( \\# {n} {h} )"),
+            ("plus", f"\\# +{n} {h}"), ("zeros", f"\\# 00{n} {h}")]
+    bad = [("length+1", f"\\# {n + 1} {h}"), ("data+1", f"\\# {n} {h}00"), ("odd", f"\\# {n} {h}0"),
+           ("junk", f"\\# {n} {h} zz"), ("negative", f"\\# -{n if n else 1} {h}")]
+    if not h.isdigit():
+        bad.append(("no-length", f"\\# {h}" if n != 0 else "\\#"))
+    if tname not in TXT_LIKE:
+        bad.append(("quoted-hash", f'"\\#" {n} {h}'))
+    if n > 0:
+        bad += [("length-1", f"\\# {n - 1} {h}"), ("data-1", f"\\# {n} {h[:-2]}"), ("no-data", f"\\# {n}")]
+    try:
+        w_ref = rd_ref.to_wire(origin=origin if origin is not None else dns.name.root)
+    except dns.exception.DNSException:
+        return True
+    for label, t in good + bad:
+        accept = (label, t) in good
+        try:
+            r = dns.rdata.from_text(rdclass, rdtype, t, origin=origin, relativize=rel)
+        except dns.exception.DNSException:
+            r = None
+        except Exception as e:
+            _fail(ctx, f"C05/from_text/foreign-exception/{tname}/{type(e).__name__}", f"from_text({tname}, {t!r}) raised {e!r}", rep)
+            return False
+        model_corr_fromtext(ctx, c, tname, t, origin, rel, r)
+        ctx.count("generic.variant." + label)
+        if accept:
+            ok = False
+            if r is not None:
+                try:
+                    ok = r.to_wire(origin=origin if origin is not None else dns.name.root) == w_ref
+                except dns.exception.DNSException:
+                    ok = False
+            if not ok:
+                _fail(ctx, f"C05/generic-form/spelling-{label}-changes-the-record/{'unknown-type' if tname.startswith('TYPE') else tname}",
+                      f"{tname}: {t!r} gives {'an error' if r is None else repr(r.to_text())}", rep)
+                return False
+        elif r is not None:
+            _fail(ctx, f"C05/generic-form/malformed-{label}-accepted/{'unknown-type' if tname.startswith('TYPE') else tname}",
+                  f"{tname}: {t!r} is accepted (as {r.to_text()!r})", rep)
             return False
     return True
 
@@ -353,6 +510,31 @@ def eval_rt(ctx: Ctx, c: dict):
     if text is None:
         return
     c["_text"] = text  # for the replay file only
+    # --- a text printed with (origin, relativize=False) is self-contained: read without any origin it has no relative
+    # name left and denotes the value derelativized against that origin
+    if style.origin is not None and not style.relativize and tname in NAME_TYPES:
+        try:
+            w_abs = rd.to_wire(origin=style.origin)
+        except dns.exception.DNSException:
+            w_abs = None
+        if w_abs is not None:
+            try:
+                r0 = dns.rdata.from_text(rdclass, rdtype, text)
+                w0 = r0.to_wire() if wf_text(tname, rd) is None else w_abs
+            except dns.exception.DNSException as e:
+                if wf_text(tname, rd) is None:
+                    _fail(ctx, f"C05/style/derelativized-text-not-self-contained/{tname}",
+                          f"{tname}: printed with origin={style.origin} relativize=False as {text!r}; read without an origin: {e!r}", rep)
+                    return
+                w0 = w_abs
+            ctx.count("style.derelativized-selfcontained")
+            if w0.lower() != w_abs.lower():
+                _fail(ctx, f"C05/style/derelativized-text-differs/{tname}",
+                      f"{tname}: printed with origin={style.origin} relativize=False as {text!r}, which denotes {w0.hex()} not {w_abs.hex()}", rep)
+                return
+    # --- the keyword route `to_text(origin, relativize, **kw)` (observe point) agrees with to_styled_text
+    if not to_text_route_checks(ctx, c, rep, tname, rd, st, style, text):
+        return
     why = wf_text(tname, rd)
     if why is not None:
         ctx.count("degenerate." + why.replace(" ", "-"))
@@ -393,6 +575,9 @@ def eval_rt(ctx: Ctx, c: dict):
         return
     # --- relativize_to different from origin
     if porigin is not None and not relto_checks(ctx, c, rep, rdclass, rdtype, tname, text, porigin):
+        return
+    # --- end of line: comment, parentheses, surplus token
+    if not eol_checks(ctx, c, rep, rdclass, rdtype, tname, text, porigin, prel, rd2):
         return
     # --- equal record
     cmp_origin = origin if origin is not None else dns.name.root
@@ -473,6 +658,7 @@ def eval_generic(ctx: Ctx, c: dict):
         if not (rd2 == rd and rd2.to_wire() == wire and isinstance(rd2, dns.rdata.GenericRdata)):
             _fail(ctx, "C05/generic-form/unknown-type/value-differs", f"TYPE{rdtype} {text!r} parses to {rd2!r}", rep)
         ctx.count("generic.unknown.ok")
+        generic_variants(ctx, c, rep, rdclass, rdtype, tname, wire, origin, bool(c.get("rel", 1)), rd2)
         return
     rdclass, rdtype, tname, _ = BY_NAME[c["type"]]
     try:
@@ -511,6 +697,12 @@ def eval_generic(ctx: Ctx, c: dict):
         _fail(ctx, f"C05/generic-form/known-type/value-differs/{tname}", f"{tname}: generic form {text!r} parses to {rd2.to_text()!r}", rep)
         return
     ctx.count("generic.known.ok")
+    rel = bool(c.get("rel", 1))
+    if not generic_variants(ctx, c, rep, rdclass, rdtype, tname, g.data, porigin, rel, rd2):
+        return
+    # the generic form under relativize_to different from origin
+    if porigin is not None:
+        relto_checks(ctx, c, rep, rdclass, rdtype, tname, text, porigin)
 
 
 def eval_ft(ctx: Ctx, c: dict):
